@@ -676,6 +676,77 @@ fn run(ctx: &mut Ctx) {
             }
         }
     }
+    // family 4b: `format` echoes a literal as written IN EVERY SYNTACTIC POSITION (also where it has no commodity of its
+    // own: a factor inside parentheses): every well-formed literal of length <= 5 and six longer grouped ones in each
+    // position, formatted by the real formatter and read back: same value, same decimal places, and - when the integer
+    // part has thousands to group - the same grouping style
+    {
+        let extra = ["1,000.5", "-7,777.10", "1,000,000", "10,000.00", "1,234,567.890", "-1,000"];
+        let mut lits: Vec<String> = vec![];
+        for len in 1..=5usize {
+            for k in 0..6u64.pow(len as u32) {
+                let l = nth_string(len, k);
+                if matches!(reference(&l), Exp::Accept { .. }) {
+                    lits.push(l);
+                }
+            }
+        }
+        lits.extend(extra.iter().map(|x| x.to_string()));
+        ctx.fact("format_echo_positions_literals", lits.len() as u64);
+        for (pos, tmpl) in POSITIONS {
+            for lit in &lits {
+                if !ctx.next_is_mine() {
+                    ctx.skip_cases(1);
+                    continue;
+                }
+                let text = tmpl.replacen("{}", lit, 1);
+                ctx.case(
+                    || format!("format echo, position {}:\n{}", pos, text),
+                    || {
+                        let in_paren = pos.starts_with("paren");
+                        let (unary, lit_eff) = if in_paren && lit.starts_with('-') { (true, &lit[1..]) } else { (false, lit.as_str()) };
+                        let (digits, scale, neg) = match reference(lit_eff) {
+                            Exp::Accept { digits, scale, neg, .. } => (digits, scale, neg),
+                            _ => return Outcome::dont_care(format!("format-echo-position/{}/not-one-literal", pos)),
+                        };
+                        let orig = match PrettyDecimal::from_str(lit_eff) {
+                            Ok(o) => o,
+                            Err(_) => return Outcome::dont_care(format!("format-echo-position/{}/scanner-refuses", pos)),
+                        };
+                        let mut out: Vec<u8> = vec![];
+                        let mut r = text.as_bytes();
+                        if okane_core::format::FormatOptions::new().format(&mut r, &mut out).is_err() {
+                            // acceptance in this position is family 3's business
+                            return Outcome::dont_care(format!("format-echo-position/{}/not-accepted-here", pos));
+                        }
+                        let printed = String::from_utf8_lossy(&out).to_string();
+                        let parsed: Result<Vec<plain::LedgerEntry<'_>>, String> = parse_ledger::<plain::Ident>(&ParseOptions::default(), &printed).map(|r| r.map(|(_, e)| e).map_err(|e| e.to_string())).collect();
+                        let es = match parsed {
+                            Ok(es) => es,
+                            Err(e) => return Outcome::violation(format!("format-echo-position/{}/output-unreadable", pos), format!("{}\n{}", printed, e)),
+                        };
+                        match extract(pos, &es) {
+                            None => Outcome::violation(format!("format-echo-position/{}/number-lost", pos), printed),
+                            Some((n, p)) => {
+                                let eff = if n { -p.value.mantissa() } else { p.value.mantissa() };
+                                if eff != want_mantissa(&digits, neg ^ unary) || p.value.scale() != scale {
+                                    return Outcome::violation(format!("format-echo-position/{}/value-or-decimal-places-changed", pos), format!("{:?} was echoed as {} (scale {}) in:\n{}", lit, p.value, p.value.scale(), printed));
+                                }
+                                // thousands to group: at least four integer digits once leading zeros are set aside;
+                                // "no format recorded" and Plain are the same style
+                                let int_digits = lit_eff.trim_start_matches('-').split('.').next().unwrap_or("").chars().filter(|c| c.is_ascii_digit()).collect::<String>().trim_start_matches('0').len();
+                                let style = |f: &Option<okane_core::syntax::pretty_decimal::Format>| matches!(f, Some(okane_core::syntax::pretty_decimal::Format::Comma3Dot));
+                                if int_digits >= 4 && style(&p.format) != style(&orig.format) {
+                                    return Outcome::violation(format!("format-echo-position/{}/grouping-style-changed", pos), format!("{:?} (read as {:?}) was echoed as {} ({:?}) in:\n{}", lit, orig.format, p, p.format, printed));
+                                }
+                                Outcome::pass(format!("format-echo-position/{}/kept{}", pos, if int_digits >= 4 { "-with-thousands" } else { "" }))
+                            }
+                        }
+                    },
+                );
+            }
+        }
+    }
     // family 3: embeddings
     let emb_len = ctx.tier.pick(4usize, 5usize);
     for (pos, tmpl) in POSITIONS {
